@@ -88,6 +88,19 @@ DS9_BLOBS = [
     'annulus(10,10,2,4,6)\n',
     'galactic\npoint(160,-43) # point=x 12\ntext(160.01,-43) # text={lbl}\n'
     'line(160,-43,160.02,-43.01)\n',
+    # sexagesimal vertices in an equatorial frame (ONE polygon: an odd number)
+    'fk5\npolygon(2:00:00,+10:00:00,2:00:04,+10:00:00,2:00:02,+10:01:00) '
+    '# text={tri} tag={p} tag={q}\ncircle(2:00:01.5,+10:00:30,3")\n',
+    # aliases, unit suffixes, multi-radius shapes, a composite, two polygons
+    'j2000; ellipse(30d,10d,10",5",20",10",30) # color=cyan\n'
+    'icrs\nannulus(30.0,10.0,1\',2\',3\')\nbox(2h,10d,4",2",8",4",15)\n'
+    'polygon(30.0d,10.0d,30.01d,10.0d,30.0d,10.01d)\n'
+    'polygon(2:00:00,10:00:00,2:00:04,10:00:00,2:00:02,10:01:00)\n',
+    '# Region file format: DS9 version 4.1\nglobal color=green dashlist=8 3 '
+    'width=1 font="helvetica 10 normal roman" select=1 include=1\n'
+    'ecliptic\n-circle(45,5,20") # text="it\'s" width=3 dash=1\n'
+    'image\n# text(5,6) text={note} textangle=30\n'
+    'point(3,4) # point=diamond 7 color=#0f0\n',
 ]
 CRTF_BLOBS = [
     "#CRTFv0\nglobal coord=J2000, color=blue\ncircle[[30deg, 10deg], 3arcsec], label='x'\n"
@@ -95,6 +108,15 @@ CRTF_BLOBS = [
     "#CRTFv0\ncircle[[10pix, 20pix], 3pix]\n-ellipse[[10pix, 20pix], [4pix, 2pix], 30deg]\n"
     "poly[[1pix, 2pix], [3pix, 4pix], [5pix, 1pix]]\n",
     "#CRTFv0\nann rotbox[[30deg, 10deg], [4arcsec, 2arcsec], 45deg], coord=ICRS, color=red\n",
+    "#CRTFv0\nglobal coord=B1950, linewidth=2\n"
+    "box[[02:00:00.0, +010.00.00.0], [02:00:04.0, +010.01.00.0]]\n"
+    "centerbox[[30deg, 10deg], [6arcsec, 4arcsec]], coord=GALACTIC\n"
+    "global color=magenta\n"
+    "annulus[[30deg, 10deg], [3arcsec, 6arcsec]], label=\"a, b\"\n",
+    "#CRTFv0\nglobal coord=ICRS\nsymbol[[30deg, 10deg], *], symsize=3, color=green\n"
+    "text[[30.001deg, 10deg], 'it is'], fontsize=12\n"
+    "line[[30deg, 10deg], [30.01deg, 10.01deg]], corr=[I, Q], range=[1GHz, 2GHz]\n"
+    "-ellipse[[0.52rad, 0.17rad], [4arcsec, 2arcsec], 0.5rad]\n",
 ]
 
 
@@ -297,7 +319,8 @@ def apply(pool, op):
             return [r], r.serialize(format=fmt, **kw)
         if name == 'parse':
             fmt = ['ds9', 'crtf'][op[1] % 2]
-            blob = (DS9_BLOBS if fmt == 'ds9' else CRTF_BLOBS)[op[2] % 3]
+            blobs = DS9_BLOBS if fmt == 'ds9' else CRTF_BLOBS
+            blob = blobs[op[2] % len(blobs)]
             return [blob], list(Regions.parse(blob, format=fmt))
         if name == 'parse_table':
             lst = L[(0, 1, 3)[op[1] % 3]]
